@@ -21,14 +21,14 @@ PROFILES = {
     "C01": [("pressure", 12), ("fill", 10), ("mix", 6), ("ttl", 4), ("lg-updrace", 20), ("lg-pressure", 4)],
     "C02": [("reads", 12), ("mix", 8), ("burst", 6), ("lg-reads", 4)],
     "C03": [("seq", 24), ("ttl", 8), ("lg-seq", 4), ("mix", 6), ("pressure", 5)],
-    "C04": [("burst", 12), ("mix", 8), ("ttl", 5), ("lg-burst", 4)],
+    "C04": [("burst", 12), ("mix", 8), ("ttl", 5), ("lg-burst", 4), ("delrace", 10)],
     "C05": [("burst", 15), ("mix", 8), ("pressure", 5), ("lg-updrace", 10), ("lg-burst", 4)],
     "C06": [("pressure", 18), ("fill", 12), ("mix", 4), ("lg-pressure", 4)],
-    "C07": [("ttl", 10), ("mix", 8), ("burst", 8), ("lg-ttl", 4)],
+    "C07": [("ttl", 10), ("mix", 8), ("burst", 8), ("lg-ttl", 4), ("delrace", 20)],
     "C08": [("ttl", 10), ("seq", 14), ("mix", 6), ("lg-ttl", 4)],
     "C09": [("ttl", 15), ("seq", 8), ("reads", 5), ("lg-ttl", 4)],
     "C10": [("ttl", 18), ("seq", 8), ("evictrace", 6), ("lg-ttl", 4), ("lg-evictrace", 3)],
-    "C11": [("burst", 20), ("mix", 8), ("lg-burst", 5)],
+    "C11": [("burst", 20), ("mix", 8), ("lg-burst", 5), ("delrace", 6)],
     "C13": [("shutdown", 10), ("shutrace", 80), ("mix", 3), ("lg-shutdown", 5)],
     "C15": [("reads", 14), ("mix", 4), ("lg-reads", 4)],
     "C16": [("stats", 15), ("allhit", 6), ("mix", 6), ("lg-stats", 4)],
@@ -138,6 +138,17 @@ for p in ["C06", "C14"]:
     d["quick"] = d["quick"] + [HOT_Q]
     d["thorough"] = d["thorough"] + [HOT_T]
     PLANS[p]["assumptions"] = PLANS[p]["assumptions"] + ["free-running 'hot key' rounds (no scheduler): a continuously read resident against never-read newcomers, each put judged by TraceHist.tla when the newcomer's own estimate (read through the cache's estimate function before and after the put) is 0 and the resident's was at least 4: a newcomer whose sketch positions coincide with the resident's shares its estimate, which is allowed over-counting"]
+HANDOVER_Q = {"name": "hist-handover", "cmd": "hist --mode handover --seed {seed} --rounds 60 --ops 3000", "trace_spec": "TraceHist"}
+HANDOVER_T = {"name": "hist-handover", "cmd": "hist --mode handover --seed {seed} --rounds 1500 --ops 3000", "trace_spec": "TraceHist"}
+for p in ["C12", "C18"]:
+    d = PLANS[p].setdefault("direct", {"quick": [], "thorough": []})
+    d["quick"] = d["quick"] + [HANDOVER_Q]
+    d["thorough"] = d["thorough"] + [HANDOVER_T]
+    PLANS[p]["assumptions"] = PLANS[p]["assumptions"] + ["free-running 'hand-over' rounds: a really sleeping task (thread park) awaits an acknowledgement that another task polled before; a sleeper that is not woken although the acknowledgement completed is reported (TraceHist.tla)"]
+CONTEND_Q = {"name": "hist-contend", "cmd": "hist --mode contend --seed {seed} --rounds 150 --ops 2000 --readers 3", "trace_spec": "TraceHist"}
+CONTEND_T = {"name": "hist-contend", "cmd": "hist --mode contend --seed {seed} --rounds 3000 --ops 2000 --readers 4", "trace_spec": "TraceHist"}
+PLANS["C12"]["direct"]["quick"] = PLANS["C12"]["direct"]["quick"] + [CONTEND_Q]
+PLANS["C12"]["direct"]["thorough"] = PLANS["C12"]["direct"]["thorough"] + [CONTEND_T]
 for p in ["C07"]:
     PLANS[p]["direct"]["quick"] = PLANS[p]["direct"]["quick"] + [STRESS_MIX_Q]
     PLANS[p]["direct"]["thorough"] = PLANS[p]["direct"]["thorough"] + [STRESS_MIX_T]
